@@ -249,7 +249,7 @@ theorem clone_isolated {o : Tree} (io : Bool) :
 /-! ## non-vacuity -/
 
 /-- the hypotheses of the theorems above are met by a non-trivial tree: a two-level tree with t = 3 -/
-example : TreeWf ⟨3, witnessRoot, 5, false, true, true⟩ ∧ RootOk witnessRoot :=
+example : TreeWf ⟨3, witnessRoot, 5, false, true, true, false⟩ ∧ RootOk witnessRoot :=
   ⟨⟨by decide, witnessRoot_wf.1, by decide⟩, witnessRoot_wf.2⟩
 
 /-- and the operations really change it: inserting key 5 and deleting key 4 (successor replacement + merge +
